@@ -176,13 +176,18 @@ class malVisitor(ParseTreeVisitor):
         return ret
 
     def visitTtcterm(self, ctx):
-        if len(factors := ctx.ttcfact()) == 1:
-            ret = self.visit(factors[0])
-        else:
-            ret = {}
-            ret["type"] = "multiplication" if ctx.STAR() else "division"
-            ret["lhs"] = self.visit(factors[0])
-            ret["rhs"] = self.visit(factors[1])
+        factors = ctx.ttcfact()
+        ret = self.visit(factors[0])
+
+        # left-associative, one operator (child 2i-1) before each further factor
+        for i in range(1, len(factors)):
+            ret = {
+                "type": "multiplication"
+                if ctx.children[2 * i - 1].getText() == "*"
+                else "division",
+                "lhs": ret,
+                "rhs": self.visit(factors[i]),
+            }
 
         return ret
 
